@@ -4,7 +4,7 @@
     theorems for EVERY matcher; Match/Ctl.v instantiates both with the control functions. *)
 From Coq Require Import ZArith List Bool.
 From V Require Import Scan.ScanModel Run.RunLoop Run.RunFacts Run.RunControl
-  Match.Adjudicate Match.AdjProofs Match.Ctl Match.CtlProofs Scan.PySem Scan.ScanSrc Scan.ScanSrcEq.
+  Match.Adjudicate Match.AdjProofs Match.Ctl Match.CtlProofs Scan.PySem Scan.ScanSrc Scan.ScanSrcEq Run.RunSem Run.RunSrc Run.RunSrcEq.
 Import ListNotations.
 Open Scope Z_scope.
 
@@ -124,6 +124,20 @@ Theorem C13_is_last_source : forall (s : sc) (line : Z) (e : option Z),
   is_last_src (PInt line) (of_oz (from_line s)) (of_oz (to_line s)) (PBool (all_lines s)) (PList (these s)) (of_oz e) = PBool (is_last false s e line).
 Proof. exact is_last_src_eq. Qed.
 Print Assumptions C13_is_last_source.
+
+(** the source itself: CsvPath._consider_line as translated from csvpath/csvpath.py (Run/RunSrc.v, regenerated on every run) — with the
+    source's own Scanner.includes / Scanner.is_last, raise_match_count_if, stop() and LineMonitor.is_last_line_and_blank — is the model's
+    per-record step [consider], for every matcher that leaves the line monitor alone, every scanner state, run state and record: the same
+    state afterwards (scan_count, match_count, advance_count, stopped, frozen, the matcher's own state), the same "yield this line", never a raise.
+    All three entry points run this one step per record, which is why they are the same run; stop / advance / last act through it. *)
+Theorem C13_step_source : forall (C X : Type) (m : rs X -> list C -> rs X * bool),
+  (forall s l, pln X (fst (m s l)) = pln X s) ->
+  forall (c : cfg) (s : rs X) (l : list C), q_scan c = false ->
+  consider_line_src C X m (of_oz (from_line (scanner c))) (of_oz (to_line (scanner c))) (PBool (all_lines (scanner c))) (PList (these (scanner c)))
+    (of_oz (end_line c)) (cwnm c) true s l
+  = Some (fst (consider C X m c s l), PBool (ev_returned (snd (consider C X m c s l)))).
+Proof. exact consider_line_src_eq. Qed.
+Print Assumptions C13_step_source.
 
 Example C13_nonvacuous :
   let prog := [CAct (APush 1); CWhen (EqLine 3) true AStop; CAct (APush 2)] in
